@@ -17,7 +17,7 @@ THRESHOLDS = {
     "result_finite": 0.5,
 }
 MIN_NONTRIVIAL = {"quick": 60, "thorough": 400}
-RULE = ("case = random finest-level grid (odd nr >= 7, ntheta in 4N, >=3 circles of both parities, >=3 radial nodes), geometry/"
+RULE = ("case = random finest-level grid (odd nr >= 7, ntheta in 4N, >=3 circles of both parities, >=3 radial nodes; 4% levels of 81-97 x 128-160 nodes with 2-32 threads), geometry (15% mirrored, det DF < 0)/"
         "profile, DirBC, give cache combination + take, threads in {1,2,4,7,16}, start iterate (random, exact+noise, exact, "
         "10^U[-6,6] magnitudes), scratch vector filled with garbage; signature = (circle parity, ntheta mod 8, DirBC, cache combo, "
         "geometry, threads, start kind); non-trivial = coarse nodes present in both the circle and the radial section, >=4 circles, ntheta >= 8")
